@@ -1,1 +1,71 @@
-// kani harnesses (included from /repo under cfg(kani))
+// C18-O1: node-table record addressing. C04: record encode/decode round trip.
+// Included from /repo/nervusdb-storage/src/idmap.rs under cfg(kani).
+use super::*;
+
+/// every record lies inside one page, page index is start + id / records_per_page, no arithmetic overflow
+#[kani::proof]
+#[kani::unwind(4)]
+fn c18_o1_q_location_in_bounds() {
+    let start: u64 = kani::any();
+    kani::assume(start >= 2 && start < 65536);
+    let id: u64 = kani::any();
+    kani::assume(id <= u32::MAX as u64);
+    let (page, off) = i2e_location(PageId::new(start), id).unwrap();
+    kani::cover!(id >= 512, "witness: ids beyond the first page reachable");
+    assert!(off + I2E_RECORD_SIZE <= PAGE_SIZE, "node table: record inside its page");
+    assert!(off % I2E_RECORD_SIZE == 0, "node table: records do not overlap inside a page");
+    assert!(page.as_u64() == start + id / (PAGE_SIZE as u64 / I2E_RECORD_SIZE as u64), "node table: page = start + id / 512");
+}
+
+/// two different node ids never share bytes
+#[kani::proof]
+#[kani::unwind(4)]
+fn c18_o1_q_location_injective() {
+    let start: u64 = kani::any();
+    kani::assume(start >= 2 && start < 65536);
+    let a: u64 = kani::any();
+    let b: u64 = kani::any();
+    kani::assume(a <= u32::MAX as u64 && b <= u32::MAX as u64 && a != b);
+    let (pa, oa) = i2e_location(PageId::new(start), a).unwrap();
+    let (pb, ob) = i2e_location(PageId::new(start), b).unwrap();
+    kani::cover!(pa == pb, "witness: same page reachable");
+    assert!(pa != pb || oa != ob, "node table: distinct ids have distinct slots");
+}
+
+/// ownership, part 1 (must pass): ids of the first page stay in the one page the allocator handed to the node table
+#[kani::proof]
+#[kani::unwind(4)]
+fn c18_o2_q_first_page_ids_stay_in_owned_page() {
+    let start: u64 = kani::any();
+    kani::assume(start >= 2 && start < 65536);
+    let id: u64 = kani::any();
+    kani::assume(id < 512);
+    let (page, _off) = i2e_location(PageId::new(start), id).unwrap();
+    kani::cover!(id == 511, "witness: last slot of the first page reachable");
+    assert!(page.as_u64() == start, "node table: record lies in the page allocate_page() returned for the table");
+}
+
+/// ownership, part 2 (known finding on the pinned commit): the node table owns exactly one allocated page
+/// (apply_create_node_multi_label calls allocate_page once, when i2e_start is None), so every record must lie in it.
+#[kani::proof]
+#[kani::unwind(4)]
+fn c18_o2_q_all_ids_stay_in_owned_page() {
+    let start: u64 = kani::any();
+    kani::assume(start >= 2 && start < 65536);
+    let id: u64 = kani::any();
+    kani::assume(id >= 512 && id <= u32::MAX as u64);
+    let (page, _off) = i2e_location(PageId::new(start), id).unwrap();
+    kani::cover!(true, "witness: reached");
+    assert!(page.as_u64() == start, "node table: record lies in the page allocate_page() returned for the table");
+}
+
+/// C04-O2: the persisted node record round-trips bit-exactly
+#[kani::proof]
+#[kani::unwind(20)]
+fn c04_o2_q_i2e_record_roundtrip() {
+    let r = I2eRecord { external_id: kani::any(), label_id: kani::any(), flags: kani::any() };
+    let bytes = r.encode();
+    let back = I2eRecord::decode(&bytes);
+    kani::cover!(true, "witness: reached");
+    assert!(back == r, "node record: decode(encode(r)) == r");
+}
